@@ -25,7 +25,8 @@ RULE = ("(a) pairs of affine shape expressions c0 + c1*n + c2*m (+ c3*k) with "
         "checked by evaluating both forms on the affinely spanning grid "
         "{0,1}^k u unit points); exhaustive over all pairs for one and two "
         "parameters in the thorough tier.  (b) programs over placeholders "
-        "whose axes are affine forms (n, m, n+1, 2n, n+m, static), using "
+        "whose axes are affine forms (n, m, n+1, 2n, n+m, m+2, 2n+m, n+2m+1, "
+        "static), using "
         "elementwise operations with broadcasting, where, transpose, roll, "
         "stack, einsum (also reducing several symbolic axes), pad, "
         "expand_dims, integer indexing of provably long axes, reductions over"
@@ -142,6 +143,7 @@ AXES = {
     "n": ("n", (0, 1, 0)), "m": ("m", (0, 0, 1)), "n+1": ("n+1", (1, 1, 0)),
     "2n": ("2n", (0, 2, 0)), "n+m": ("n+m", (0, 1, 1)), "3": ("3", (3, 0, 0)),
     "1": ("1", (1, 0, 0)), "2": ("2", (2, 0, 0)), "m+2": ("m+2", (2, 0, 1)),
+    "2n+m": ("2n+m", (0, 2, 1)), "n+2m+1": ("n+2m+1", (1, 1, 2)),
 }
 
 
@@ -194,7 +196,9 @@ def sym_programs(draw):
     """a small program description; ops refer to earlier nodes"""
     pool = draw(st.sampled_from([["n", "m", "3", "1"], ["n", "n+1", "2", "1"],
                                  ["n", "m", "n+m", "1"], ["n", "2n", "3", "1"],
-                                 ["m", "m+2", "2", "1"]]))
+                                 ["m", "m+2", "2", "1"],
+                                 ["n", "2n+m", "2", "1"],
+                                 ["m", "n+2m+1", "3", "1"]]))
     nodes = []
     shapes = []          # list of axis-name lists
 
@@ -269,7 +273,8 @@ def sym_programs(draw):
                       ("1", 2): "3", ("2", 1): "3", ("n", 0): "n", ("m", 0): "m",
                       ("n+1", 0): "n+1", ("2n", 0): "2n", ("n+m", 0): "n+m",
                       ("3", 0): "3", ("1", 0): "1", ("2", 0): "2",
-                      ("m+2", 0): "m+2"}
+                      ("m+2", 0): "m+2", ("2n+m", 0): "2n+m",
+                      ("n+2m+1", 0): "n+2m+1"}
             osh = []
             for ax, w in zip(sh, widths):
                 tot = w[0] + w[1]
@@ -288,11 +293,11 @@ def sym_programs(draw):
         elif kind == "pick":
             # integer index into an axis that is provably long enough
             ok = [(d, a) for d, a in enumerate(sh)
-                  if a in ("n+1", "m+2", "2", "3", "1")]
+                  if a in ("n+1", "m+2", "2", "3", "1", "n+2m+1")]
             if not ok:
                 continue
             d, a = draw(st.sampled_from(ok))
-            hi = {"n+1": 0, "m+2": 1, "2": 1, "3": 2, "1": 0}[a]
+            hi = {"n+1": 0, "m+2": 1, "2": 1, "3": 2, "1": 0, "n+2m+1": 0}[a]
             add({"op": "pick", "args": [i], "axis": d,
                  "index": draw(st.integers(0, hi))}, sh[:d] + sh[d + 1:])
         elif kind == "esum":
